@@ -393,6 +393,23 @@ def run_workers(script, jobs, nproc=16, timeout=3600, env=None, threads=1, allow
             if allow_crash and (p.returncode < 0 or p.returncode >= 128):
                 # the interpreter was killed by a signal (memory corruption in the code under test)
                 results.append({"worker_died": p.returncode, "jobs": chunks[i], "log": msg[-1500:]})
+            elif (p.returncode < 0 or p.returncode >= 128) and _CURRENT_CHECK is not None:
+                # same, for drivers that do not look at dead workers themselves: the interpreter of a worker was killed by a
+                # signal while it exercised the code under test (heap corruption, segmentation fault in compiled code).  On
+                # the unchanged tree no worker dies; this is a violation, not a failure of the machinery.
+                done = set()
+                if os.path.exists(rp):
+                    with open(rp) as f:
+                        for line in f:
+                            try:
+                                done.add(json.dumps(json.loads(line).get("id"), sort_keys=True, default=str))
+                            except Exception:  # noqa: BLE001
+                                pass
+                lost = [j for j in chunks[i] if json.dumps(j.get("id") if isinstance(j, dict) else None, sort_keys=True, default=str) not in done]
+                _CURRENT_CHECK.violation("worker-died:signal-%d" % (-p.returncode if p.returncode < 0 else p.returncode - 128),
+                                         {"note": "a worker process was killed while running the code under test", "log": msg[-1200:],
+                                          "first_unfinished_job": (lost[0] if lost else None)},
+                                         replay={"job": lost[0] if lost else None})
             else:
                 fail = msg
         if os.path.exists(rp):
